@@ -411,6 +411,10 @@ func decimalValueFromString(numStr string, fracDigRequired uint8) (n Number, err
 	dx := strings.Index(s, ".")
 	fracDig := 0
 	if dx >= 0 {
+		if dx == 0 || dx == len(s)-1 || s[dx-1] < '0' || s[dx-1] > '9' {
+			// RFC 7950 decimal-value: digits on both sides of the point.
+			return n, fmt.Errorf("%s is not a valid decimal number: digits are needed on both sides of the point", numStr)
+		}
 		fracDig = len(s) - 1 - dx
 		// remove first decimal, if dx > 1, will fail ParseInt below
 		s = s[:dx] + s[dx+1:]
